@@ -218,3 +218,24 @@ pub fn c02_run_empty_program() {
     std::mem::forget(st);
     std::mem::forget(iset);
 }
+
+/// The growth cap counts stack entries: `PushState::size()` is the sum of the nine main stack depths,
+/// whatever the items contain (INDEX, INPUT, OUTPUT and GRAPH are not counted). `Item::size` is replaced
+/// by an arbitrary value: size() must not depend on the number of points inside CODE/EXEC items.
+pub fn item_size_any(_i: &pushr::push::item::Item) -> usize {
+    kani::any()
+}
+
+#[kani::proof]
+#[kani::unwind(10)]
+#[kani::stub(std::hash::RandomState::new, crate::stubs::random_state_new)]
+#[kani::stub(pushr::push::item::Item::size, item_size_any)]
+pub fn c02_state_size_is_sum_of_stack_depths() {
+    use pushr::push::item::Item;
+    let mut st = build(&Shape { ni: 2, nf: 1, nb: 1, nn: 1, nc: 1, ne: 1, nx: 1, nbv: 1, niv: 1, nfv: 1, nin: 1, nout: 1, ..SHAPE0 });
+    st.code_stack.push(Item::list(vec![int_atom(), int_atom()]));
+    st.exec_stack.push(Item::list(vec![int_atom()]));
+    assert!(st.size() == 2 + 1 + 1 + 1 + 2 + 2 + 1 + 1 + 1, "PushState::size() is not the sum of the nine main stack depths");
+    kani::cover!(true, "reached end");
+    std::mem::forget(st);
+}
